@@ -29,6 +29,15 @@ def rule_chirality(ctx):
                      "AxCut chirality/type is compared with the table stated in the property")
     key = "core2axcut::context::shrink_binding"
     f = fx.fn(key)
+    # the name of the type of integer continuations: what `cont_int()` declares (folded, not copied)
+    _, couts = interp.run_fn(fx, "scc_core_lang::syntax::declaration::cont_int", [], hooks=[])
+    cont_name = None
+    for o in couts:
+        r = o.result
+        if isinstance(r, Adt) and isinstance(r.fields.get("name"), Adt) and isinstance(r.fields["name"].fields.get("name"), str):
+            cont_name = r.fields["name"].fields["name"]
+    if cont_name is None:
+        raise AnalysisError("R-CHI: the declaration of the integer continuation type (cont_int) could not be folded")
     for (tykind, chi), (want_chi, want_ty) in sorted(CHIRALITY_TABLE.items()):
         ty = Adt(TY, "I64", {}) if tykind == "I64" else Adt(TY, "Decl", {"0": Sym("tyname")})
         b = Adt(CB, "ContextBinding", {"var": Sym("v"), "chi": Adt(CH, chi, {}), "ty": ty})
@@ -37,8 +46,6 @@ def rule_chirality(ctx):
             n = t.get("callee_name")
             if n == "is_codata":
                 return tykind == "codata"
-            if n == "cont_int":
-                return Adt("decl", "TypeDeclaration", {"name": Sym("_Cont"), "xtors": interp.Vec()})
             if n == "shrink_identifier":
                 return args[0]
             if n == "shrink_ty":
@@ -52,7 +59,9 @@ def rule_chirality(ctx):
             if isinstance(r, Adt) and isinstance(r.fields.get("chi"), Adt):
                 gty = r.fields.get("ty")
                 if isinstance(gty, Adt):
-                    g = "I64" if gty.variant == "I64" else ("_Cont" if repr(gty.fields.get("0")) == "$_Cont" else "decl")
+                    nm = I.deref(gty.fields.get("0"))
+                    nm = I.deref(nm.fields.get("name")) if isinstance(nm, Adt) else nm
+                    g = "I64" if gty.variant == "I64" else ("_Cont" if isinstance(nm, str) and nm == cont_name else "decl")
                 else:
                     g = "same" if repr(gty) == "$same" else "?"
                 got.add((r.fields["chi"].variant, g))
@@ -107,8 +116,8 @@ def rule_samesrc(ctx):
     for key, (dadt, dfld), (cadt, cfld), extra in specs:
         fn = Fn(fx.fn(key))
         flow = prov.make_flow(fn, fx, extra_names=extra)
-        d = _agg_field_roots(fn, flow, dadt, dfld)
-        c = _agg_field_roots(fn, flow, cadt, cfld)
+        d = _agg_field_roots(fn, flow, dadt, dfld, fx=fx)      # helpers that hand the list on (shrink_context, ..) are followed
+        c = _agg_field_roots(fn, flow, cadt, cfld, fx=fx)
         if not d or not c:
             raise AnalysisError("R-SAMESRC: %s builds no Def/Call" % key)
         # the root must be the set filled by typed_free_vars(&mut set)
@@ -119,7 +128,7 @@ def rule_samesrc(ctx):
             continue
         set_roots = set()
         for t in tfv:
-            set_roots |= prov.strip_loop(prov.collection_roots(fn, flow, t["args"][1]))
+            set_roots |= prov.strip_loop(prov.collection_roots(fn, flow, t["args"][1], fx=fx))
         ok = True
 
         def _n(rs):
@@ -141,7 +150,7 @@ def rule_samesrc(ctx):
         if key.endswith("lift"):
             ss = [t for bi, t in fn.calls() if t.get("callee_name") == "subst_sim"]
             for t in ss:
-                roots = _n(prov.strip_loop(prov.collection_roots(fn, flow, t["args"][1])))
+                roots = _n(prov.strip_loop(prov.collection_roots(fn, flow, t["args"][1], fx=fx)))
                 ikey = key + ":renaming"
                 if roots == set_roots:
                     res.inst(ikey, t["sp"]["file"], t["sp"]["line"], "ok")
